@@ -156,6 +156,12 @@ def semantic(ctx, N):
             base, cbs = (b, cb) if isinstance(p, int) else rand_bc(rng, 0.3, 2, Bicomplex)
             ctx.count(1, ('semantic', 'pow', p))
             compare('pow(%r)' % p, base ** p, reference(mpm, 'pow', cbs, p), cbs, p)
+        # real exponents with an integral value at NEGATIVE bases (inside the real domain of x -> x**3.0), with every pattern of exactly-zero
+        # components: z2 = 0 is the first-derivative point x + i h, where the branch correction of arg_c must still be applied
+        for p in (3.0, -1.0, -3.0, 2.0):
+            base, cbs = rand_bc(rng, -2.5, -0.3, Bicomplex, pattern=(None if k % 4 == 0 else k % 8))
+            ctx.count(1, ('semantic', 'pow-negative-base', p))
+            compare('pow(%r) at a negative base' % p, base ** p, reference(mpm, 'pow', cbs, int(p)), cbs, p)
         pb, cpb = rand_bc(rng, 0.3, 2, Bicomplex)
         ex, cex = rand_bc(rng, -1, 1, Bicomplex)
         compare('pow(bicomplex)', pb ** ex, reference(mpm, 'pow', cpb, cex), cpb, cex)
